@@ -95,8 +95,8 @@ fn cts_short(ctx: &mut Ctx) {
         5 => 2 * b,
         _ => ctx.rng.range(0, 2 * b),
     };
-    let (iv, _) = wl::iv(&mut ctx.rng, b);
-    let (data, _) = wl::data(&mut ctx.rng, len);
+    let (iv, _) = mode_iv(ctx, b);
+    let (data, _) = mode_data(ctx, len);
     let fill = *ctx.rng.pick(&ALL_FILLS);
     let pre = fill.make(&mut ctx.rng, &data, len);
     ctx.note("iv", J::s(hex_short(&iv)));
@@ -161,8 +161,8 @@ fn unequal_b2b(ctx: &mut Ctx) {
             let name = format!("{}/blocks_b2b", subj_name(&d));
             ctx.subject(&name);
             let (li, lo) = pick_lens(ctx, d.bs);
-            let (iv, _) = wl::iv(&mut ctx.rng, d.iv_len);
-            let (data, _) = wl::data(&mut ctx.rng, li);
+            let (iv, _) = mode_iv(ctx, d.iv_len);
+            let (data, _) = mode_data(ctx, li);
             let pre = ctx.rng.bytes(lo);
             let Ok(mut o) = mk_blk(ctx, &d, Ctor::New, &iv) else { return };
             let st0 = guard(|| o.iv_state()).ok().flatten();
@@ -192,8 +192,8 @@ fn unequal_b2b(ctx: &mut Ctx) {
             let name = format!("{}/oneshot_b2b", subj_name(&d));
             ctx.subject(&name);
             let (li, lo) = pick_lens(ctx, ctx.rng.clone().range(1, b));
-            let (iv, _) = wl::iv(&mut ctx.rng, d.iv_len);
-            let (data, _) = wl::data(&mut ctx.rng, li);
+            let (iv, _) = mode_iv(ctx, d.iv_len);
+            let (data, _) = mode_data(ctx, li);
             let pre = ctx.rng.bytes(lo);
             let Ok(o) = mk_blk(ctx, &d, Ctor::New, &iv) else { return };
             let inp = Canary::from(&data);
@@ -221,7 +221,7 @@ fn unequal_b2b(ctx: &mut Ctx) {
             ctx.subject(&name);
             let (li, lo) = pick_lens(ctx, ctx.rng.clone().range(1, b));
             let (iv, _) = stream_iv(ctx, d.flavor, b);
-            let (data, _) = wl::data(&mut ctx.rng, li);
+            let (data, _) = mode_data(ctx, li);
             let pre = ctx.rng.bytes(lo);
             let Ok(Ok(mut o)) = guard(|| (d.mk)(Ctor::New, &key, &iv)) else { return };
             // somewhere inside a block
@@ -260,8 +260,8 @@ fn unequal_b2b(ctx: &mut Ctx) {
             // both at least one block, but unequal
             let li = b + ctx.rng.below(2 * b);
             let lo = if ctx.rng.coin() { li + ctx.rng.range(1, b) } else { (li - ctx.rng.range(1, li.min(b))).max(0) };
-            let (iv, _) = wl::iv(&mut ctx.rng, b);
-            let (data, _) = wl::data(&mut ctx.rng, li);
+            let (iv, _) = mode_iv(ctx, b);
+            let (data, _) = mode_data(ctx, li);
             let pre = ctx.rng.bytes(lo);
             let Ok(Ok(o)) = guard(|| (d.mk)(Ctor::New, &key, &iv)) else { return };
             let inp = Canary::from(&data);
@@ -296,8 +296,8 @@ fn padded_dec_nonmultiple(ctx: &mut Ctx) {
     ctx.subject(&name);
     let b = d.bs;
     let len = ctx.rng.range(0, 4) * b + ctx.rng.range(1, b - 1);
-    let (iv, _) = wl::iv(&mut ctx.rng, d.iv_len);
-    let (data, _) = wl::data(&mut ctx.rng, len);
+    let (iv, _) = mode_iv(ctx, d.iv_len);
+    let (data, _) = mode_data(ctx, len);
     let Ok(o) = mk_blk(ctx, &d, Ctor::New, &iv) else { return };
     let olen = match form {
         Form::Inout => len,
@@ -341,8 +341,8 @@ fn padded_misc(ctx: &mut Ctx) {
     ctx.subject(&name);
     let b = d.bs;
     let len = ctx.rng.range(0, 3 * b);
-    let (iv, _) = wl::iv(&mut ctx.rng, d.iv_len);
-    let (data, _) = wl::data(&mut ctx.rng, len);
+    let (iv, _) = mode_iv(ctx, d.iv_len);
+    let (data, _) = mode_data(ctx, len);
     let Ok(o) = mk_blk(ctx, &d, Ctor::New, &iv) else { return };
     let olen = if d.dir == Direction::Dec && matches!(form, Form::InPlace) { len.max(ctx.rng.range(0, 4 * b)) } else { ctx.rng.range(0, 4 * b) };
     let olen = if d.dir == Direction::Dec && form == Form::InPlace { olen.max(len) } else { olen };
